@@ -1266,12 +1266,10 @@ coap_oscore_decrypt_pdu(coap_session_t *session,
       }
       last_seq =
           coap_decode_var_bytes8(cose->partial_iv.s, cose->partial_iv.length);
-      if (rcp_ctx->last_seq>= OSCORE_SEQ_MAX) {
+      if (last_seq >= OSCORE_SEQ_MAX) {
         coap_log_warn("OSCORE Replay protection, SEQ larger than SEQ_MAX.\n");
         goto error;
       }
-      if (last_seq > rcp_ctx->last_seq)
-        rcp_ctx->last_seq = last_seq;
       /*
        * Requires in COSE object as appropriate
        *   kid (set above)
